@@ -221,3 +221,9 @@ pub fn verif_repeat_take<U, F: FnMut() -> U>(f: F, n: usize) -> (r: ::core::iter
 /// R3: `SmallVec::inline_size()` has no counterpart for Vec; its value is left arbitrary (A-SV)
 #[verifier::external_body]
 pub fn verif_smallvec_inline_size() -> (r: usize) { unimplemented!() }
+// A-LIB-OPTION: Option::filter keeps the value exactly when the predicate returns true
+pub assume_specification<T, P: FnOnce(&T) -> bool>[ ::core::option::Option::<T>::filter ](o: Option<T>, p: P) -> (r: Option<T>)
+    requires o is Some ==> p.requires((&o->Some_0,)),
+    ensures o is None ==> r is None,
+        o is Some ==> ((p.ensures((&o->Some_0,), true) ==> r == o) && (p.ensures((&o->Some_0,), false) ==> r is None)) && (r is None || r == o),
+;
